@@ -12,8 +12,8 @@ Theorem C20_F3_refuted :
   exists env env' p,
     Permutation env env' /\
     guard_F3 (norm_env "P_" env) = true /\ guard_F4 (norm_env "P_" env) = false /\
-    top_view p (load tr_id false false false "P_" [] None env) <>
-    top_view p (load tr_id false false false "P_" [] None env').
+    top_view p (load (sh_bits []) tr_id false false "P_" [] None env) <>
+    top_view p (load (sh_bits []) tr_id false false "P_" [] None env').
 Proof. exact F3_refuted. Qed.
 Print Assumptions C20_F3_refuted.
 
@@ -21,7 +21,7 @@ Theorem C20_F4_refuted :
   exists env nk v r,
     norm_env "P_" env = [(nk, v)] /\
     guard_F4 (norm_env "P_" env) = true /\ guard_F3 (norm_env "P_" env) = false /\
-    load tr_id false false false "P_" [] None env = Ok r /\
+    load (sh_bits []) tr_id false false "P_" [] None env = Ok r /\
     view (parse_path nk) (Map r) <> NLeaf v.
 Proof. exact F4_refuted. Qed.
 Print Assumptions C20_F4_refuted.
